@@ -43,17 +43,38 @@ def one(job):
     sent = {"ev": "Sent", "built": False, "ok": False, "devGotExact": False, "devBytes": 0, "fileLen": 0, "why": ""}
     mtrace = None
     rom_ev = []
-    res = runner.run(text, extern)
-    if res[0] == "ok":
-        try:
-            data = res[3].export()
+    via = "cli" if i % 3 == 2 else "api"          # every third program goes through the command-line tools (nxpimage sb21 export, blhost receive-sb-file)
+    data = b""
+    if via == "cli":
+        from click.testing import CliRunner
+
+        from spsdk.apps import nxpimage
+
+        K = c19.KEYS
+        bd, outf = os.path.join(runner.dir, f"prog-{i}.bd"), os.path.join(runner.dir, f"out-{i}.sb2")
+        with open(bd, "w") as f:
+            f.write(text)
+        args = ["sb21", "export", "-c", bd, "-k", os.path.join(K, "SBkek_PUF.txt"), "-s", os.path.join(K, "k0_cert0_2048.pem"),
+                "-S", os.path.join(K, "root_k0_signed_cert0_noca.der.cert")]
+        for k in range(4):
+            args += ["-R", os.path.join(K, f"root_k{k}_signed_cert0_noca.der.cert")]
+        args += ["-h", os.path.join(runner.dir, f"hash-{i}.bin"), "-o", outf] + list(extern)
+        cr = CliRunner().invoke(nxpimage.main, args)
+        if cr.exit_code == 0 and os.path.exists(outf):
+            data = open(outf, "rb").read()
             sent["built"] = True
-        except Exception as x:  # noqa: BLE001 - recorded, the spec decides
-            data = b""
-            sent["why"] = f"export: {type(x).__name__}: {x}"[:200]
+        else:
+            sent["why"] = f"nxpimage sb21 export: exit {cr.exit_code}: {(cr.output or '').strip()[-160:]} {cr.exception!r}"[:300]
     else:
-        data = b""
-        sent["why"] = f"{res[0]}: {res[1]}"[:200]
+        res = runner.run(text, extern)
+        if res[0] == "ok":
+            try:
+                data = res[3].export()
+                sent["built"] = True
+            except Exception as x:  # noqa: BLE001 - recorded, the spec decides
+                sent["why"] = f"export: {type(x).__name__}: {x}"[:200]
+        else:
+            sent["why"] = f"{res[0]}: {res[1]}"[:200]
     if sent["built"]:
         twin = c10.Twin(transport, mps, None, None)
         proto = (MbootSerialProtocol if transport == "serial" else MbootBulkProtocol)(twin)
@@ -65,21 +86,35 @@ def one(job):
         resv = {"ev": "result", "kind": "ret", "val": "fail", "status": 0, "reads": 0, "documented": True, "dataExact": False, "dataLen": 0,
                 "devGotExact": False, "devBytes": 0, "valuesExact": False, "exc": "none"}
         try:
-            ok = mb.receive_sb_file(data)
+            if via == "cli":
+                from click.testing import CliRunner
+
+                from spsdk.apps import blhost
+                from spsdk.mboot.interfaces.uart import MbootUARTInterface
+                from spsdk.mboot.interfaces.usb import MbootUSBInterface
+
+                cls = MbootUARTInterface if transport == "serial" else MbootUSBInterface
+                cls.scan_single = classmethod(lambda c, **kw: proto)        # the tool "finds" the device twin (this is a forked worker process)
+                cr = CliRunner().invoke(blhost.main, (["-p", "TWIN"] if transport == "serial" else ["-u", "0x1fc9:0x0021"]) + ["receive-sb-file", outf])
+                ok = cr.exit_code == 0 and "Success" in (cr.output or "")
+                if not ok:
+                    sent["why"] = f"blhost receive-sb-file: exit {cr.exit_code}: {(cr.output or '').strip()[-160:]}"[:300]
+            else:
+                ok = mb.receive_sb_file(data)
             resv["val"] = "ok" if ok is True else "fail"
         except Exception as x:  # noqa: BLE001
             resv.update(kind="exc", val="exc", exc=type(x).__name__, documented=False)
         got = bytes(twin.core.got)
         resv["devGotExact"] = got == data
         resv["devBytes"] = len(got)
-        st = mb.status_code
+        st = mb.status_code if via == "api" else (0 if resv["val"] == "ok" else 1)      # the tool prints the status, its own McuBoot object is gone
         resv["status"] = int(st) if isinstance(st, int) and 0 <= st < 2**31 else 999999
         resv["reads"] = twin.reads
         mtrace = {"id": f"sys-{i}", "transport": transport, "ev": [c10.norm(e) for e in [call] + twin.trace + [resv]]}
         sent.update(ok=resv["val"] == "ok" and resv["status"] == 0, devGotExact=resv["devGotExact"], devBytes=len(got), fileLen=len(data))
         rom_ev = c04_rom.run(got, one.kek, max_payload_log=4096)
     return {"id": f"sys-{i}", "kind": "anchor", "mode": "clean", "given": {}, "ref": {}, "ev": evs + [sent] + rom_ev, "text": text, "mboot": mtrace,
-            "transport": transport, "mps": mps}
+            "transport": transport, "mps": mps, "via": via}
 
 
 def run_lane(v, progs, tier, prop):
@@ -140,6 +175,7 @@ def run_lane(v, progs, tier, prop):
         v.violation(f"{prop}/e2e/link/{t['transport']}/{evname}", f"system lane: receive_sb_file of the file built from {t['text'][:200]!r} over {t['transport']}: mboot event "
                     f"#{matched + 1} rejected", {"e2e": True, "text": t["text"], "trace": strip(t), "transport": t["transport"], "mps": t["mps"]})
     acc = sum(1 for t in traces if t["ev"][-1].get("ev") == "Accept")
+    v.extra["system_lane_cli"] = sum(1 for t in traces if t["via"] == "cli")
     v.extra["system_lane"] = {"programs": len(traces), "walked_to_accept": acc, "rejected": len(rej), "link_traces": len(mts),
                               "canary": "trace with one decoded command address moved by 4 rejected"}
     say(f"[SYS] {len(traces)} programs: BD text -> SB2.1 -> mboot link -> device -> ROM; {acc} accepted by the ROM automaton, {len(rej)} rejected by the composition")
